@@ -235,7 +235,12 @@ func runPluginNames() int {
 			}
 		}
 		// sentinels also where the name would lead were it normalised on the way (white space trimmed, letter case folded)
-		for _, twin := range []string{trimComps(nameStr), strings.ToLower(nameStr), strings.ToUpper(nameStr)} {
+		// ... and where a backup, a temporary copy or a hidden twin of the plugin would be (plugins in their own right)
+		derived := []string{}
+		if !in.Name.Abs && len(in.Name.Comps) == 1 && nameStr != "" && nameStr != "." && nameStr != ".." && !strings.ContainsAny(nameStr, "/\x00") {
+			derived = []string{nameStr + ".old", nameStr + ".bak", nameStr + ".tmp", nameStr + "~", "." + nameStr}
+		}
+		for _, twin := range append([]string{trimComps(nameStr), strings.ToLower(nameStr), strings.ToUpper(nameStr)}, derived...) {
 			if twin == nameStr || strings.Contains(twin, "\x00") || len(twin) > 200 {
 				continue
 			}
